@@ -203,6 +203,11 @@ class COVDetection(DetectionAlgorithm):
         if not len(self.cov_subscriptions):
             return
 
+        # a specific subscription might have been canceled or have expired
+        # since the notification was deferred
+        if (subscription is not None) and (subscription not in self.cov_subscriptions):
+            return
+
         # get the current time from the task manager
         current_time = TaskManager().get_time()
         if _debug: COVDetection._debug("    - current_time: %r", current_time)
@@ -328,8 +333,10 @@ class COVIncrementCriteria(COVDetection):
     def send_cov_notifications(self, subscription=None):
         if _debug: COVIncrementCriteria._debug("send_cov_notifications %r", subscription)
 
-        # when sending out notifications, keep the current value
-        self.previous_reported_value = self.presentValue
+        # when sending out notifications, keep the current value (a deferred
+        # notification for a subscription that is gone reports nothing)
+        if (subscription is None) or (subscription in self.cov_subscriptions):
+            self.previous_reported_value = self.presentValue
 
         # continue
         COVDetection.send_cov_notifications(self, subscription)
